@@ -266,6 +266,52 @@ def echo_long(sk: int, n: int, up: bool) -> bool:
     return V(well_formed(t))
 
 
+PADS = ["a", "\u00e9", "\u20ac", "\U0001f600"]          # 1-, 2-, 3- and 4-byte characters
+NCH = [0, 255, 256, 341, 342, 511, 512, 1020, 1023, 1024, 1025, 3000]
+
+
+def long_meta(src: int, wi: int, ni: int, up: bool) -> bool:
+    """
+    pre: 0 <= src <= 4 and 0 <= wi < len(PADS) and 0 <= ni < len(NCH)
+    post: _
+    """
+    # metas built from long texts of multi-byte characters, from every source a meta can come from: a handler's own
+    # meta, the text of a handler / upload-handler / middleware exception, and the echo of a refused request line
+    # (concrete lengths around the places where 1024 characters and 1024 bytes differ)
+    text = PADS[wi] * NCH[ni]
+
+    class _Hm:
+        calls = 0
+
+        def __call__(self, request):
+            if src == 0:
+                return GeminiResponse(status=51, meta=text)
+            raise HErr(text)
+
+        async def handle_upload(self, request):
+            raise HErr(text)
+
+    class _M:
+        async def process_request(self, url, ip, fp=None):
+            if src == 2:
+                raise HErr(text)
+            return True, None
+
+    h = _Hm()
+    p, t, loop = make(h, _M() if src == 2 else None, h if (up or src == 3) else None)
+    if src == 3:
+        p.data_received(b"titan://h/f;size=1;mime=text/plain\r\nX")
+    elif src == 4:
+        line = ("titan://h/f;size=" + text).encode("utf-8")
+        if len(line) + 2 > 1024:
+            line = ("titan://h/f;size=" + PADS[wi] * ((1000 - 17) // len(PADS[wi].encode("utf-8")))).encode("utf-8")
+        p.data_received(line + b"\r\n")
+    else:
+        p.data_received(b"gemini://h/x\r\n")
+    loop.run_ready()
+    return V(well_formed(t))
+
+
 class _MW:
     def __init__(self, kind, ec):
         self.kind, self.ec = kind, ec
@@ -519,6 +565,10 @@ OBLIGATIONS = [
        symbolic="skeleton index 0..8, length class 0..2 (short / 960 / 1022 bytes), uploads flag",
        functions=F_PROTO + ["parse_url"], stubs=STUBS,
        note="discrete: concrete long lines, the engine forks on the indices"),
+    Ob("long_meta", long_meta, quick=200, thorough=400,
+       symbolic="source of the meta (handler meta / handler exception / middleware exception / upload-handler exception / echoed "
+                "Titan size parameter), width of the padding character (1-4 bytes), 12 lengths around 1024 characters and 1024 bytes",
+       functions=F_PROTO, stubs=STUBS, note="discrete: concrete long texts, the engine forks on the indices"),
     Ob("middleware_outcome", middleware_outcome, quick=240, thorough=900,
        symbolic="middleware outcome (allow / deny / raise with symbolic text), handler outcome, status",
        functions=F_PROTO, stubs=STUBS),
